@@ -1150,7 +1150,14 @@ pub fn c08(rec: &mut Rec, lm: &Landmarks, rng: &mut Rng, thorough: bool) {
                     m.from_greg(ts, y, mo, d, 23, 59, 59, 999_999_999, (k % 3) as u8);
                 }
                 if k % 37 == 0 {
-                    m.from_greg_helper(ts, y, mo, d, (k % 24) as u8, (k % 60) as u8, (k % 59) as u8, (k as u32 * 7919) % 1_000_000_000, (k % 12) as u8);
+                    // the helper constructors: the four generic ones in any scale, the four _utc and the four _tai ones
+                    let j = ((k / 37) % 4) as u8;
+                    let (hts, form) = match (k / 37) % 3 {
+                        0 => (ts, j),
+                        1 => (TimeScale::UTC, 4 + j),
+                        _ => (TimeScale::TAI, 8 + j),
+                    };
+                    m.from_greg_helper(hts, y, mo, d, (k % 24) as u8, (k % 60) as u8, (k % 59) as u8, (k as u32 * 7919) % 1_000_000_000, form);
                 }
             }
         }
